@@ -341,6 +341,7 @@ func H_ParsePath() {
 	vp.Assert(e1 == nil && e2 == nil && e3 == nil, "accepted")
 	// count register writes, path ends and arcs
 	creg, ends, arcs, starts := 0, 0, 0, 0
+	_ = starts
 	okBlend := true
 	for i := range got.Log {
 		c := &got.Log[i]
@@ -362,4 +363,21 @@ func H_ParsePath() {
 	vp.Assert(okBlend, "the register is a blend of transparent (0x7f) with the first palette colour (0x80); arcs are small sweeping arcs")
 	vp.Assert(vp.And(ends == 3, starts == 3), "each path is started and ended exactly once")
 	vp.Assert(arcs == 2, "a circle becomes two relative arcs appended to the first path")
+	// circles only (no path data): the first circle starts the path, later ones close-and-move
+	var only rec.Dest
+	e4 := mdicons.ParsePath(&only, &mdicons.Path{}, adjs, size, off, outSize, []mdicons.Circle{{Cx: cx, Cy: cy, R: r}, {Cx: cy, Cy: cx, R: r}})
+	starts, ends, arcs, moves := 0, 0, 0, 0
+	for i := range only.Log {
+		switch only.Log[i].Op {
+		case rec.OpStartPath:
+			starts++
+		case rec.OpClosePathEndPath:
+			ends++
+		case rec.OpRelArcTo:
+			arcs++
+		case rec.OpClosePathAbsMoveTo:
+			moves++
+		}
+	}
+	vp.Assert(e4 == nil && starts == 1 && ends == 1 && moves == 1 && arcs == 4, "circles without path data: one path, started once, ended once, two arcs per circle")
 }
